@@ -108,7 +108,7 @@ def n3(ctx, fx, H):
                 continue
             for assume in ("null", "false"):
                 nchk += 1
-                rem = c06.selector_prune(fx, fn, lp, sel_path, assume)
+                rem = c06.selector_prune(fx, fn, (lambda x, lp=lp, sel_path=sel_path: common.item_path(x, lp.node) == sel_path), assume)
                 bad = None
                 for d in lp.body_entries:
                     r_all = cfg.reachable(fn, [d], removed_blocks=[lp.bb], removed_edges=rem)
